@@ -47,19 +47,78 @@ def load_known(pid):
     return [e for e in data.get("findings", []) if e["property"] == pid]
 
 
-def guarded_run(prop, case, tier):
-    """run one case; exceptions of the harness itself become 'harness_error' verdicts"""
-    try:
-        v = prop.run_case(case, tier)
-    except Exception as e:  # harness bug - never a violation
-        v = {"status": "harness_error", "bucket": f"{type(e).__name__}", "detail": traceback.format_exc()[-2000:],
-             "tags": [], "nontrivial": False, "key": json.dumps(case, sort_keys=True, default=str)[:200]}
+def _finish(v, case):
     v.setdefault("tags", [])
     v.setdefault("bucket", None)
     v.setdefault("detail", None)
     v.setdefault("nontrivial", False)
     v.setdefault("key", hashlib.sha1(json.dumps(case, sort_keys=True, default=str).encode()).hexdigest())
     return v
+
+
+def _run_inline(prop, case, tier):
+    try:
+        v = prop.run_case(case, tier)
+    except Exception as e:  # harness bug - never a violation
+        v = {"status": "harness_error", "bucket": f"{type(e).__name__}", "detail": traceback.format_exc()[-2000:],
+             "tags": [], "nontrivial": False}
+    return _finish(v, case)
+
+
+def guarded_run(prop, case, tier):
+    """
+    Run one case in a forked child process.  Every case therefore starts from the same process state (modules
+    imported, nothing analysed): Polar's global state (name counter, settings, lru_caches) and sympy's caches
+    cannot leak between cases, and a time limit can never leave a half-updated cache behind.
+    Exceptions of the harness itself become 'harness_error' verdicts, a killed child is 'inconclusive'.
+    """
+    if getattr(prop, "ISOLATE", True) is False or os.environ.get("VERIF_NOFORK"):
+        return _run_inline(prop, case, tier)
+    import select
+
+    hard = getattr(prop, "HARD_LIMIT", {"quick": 90, "thorough": 600})[tier]
+    rfd, wfd = os.pipe()
+    pid = os.fork()
+    if pid == 0:
+        code = 0
+        try:
+            os.close(rfd)
+            v = _run_inline(prop, case, tier)
+            data = json.dumps(v, default=str).encode()
+            with os.fdopen(wfd, "wb") as f:
+                f.write(data)
+        except BaseException:
+            code = 1
+        finally:
+            os._exit(code)
+    os.close(wfd)
+    chunks = []
+    deadline = time.time() + hard
+    killed = False
+    with os.fdopen(rfd, "rb") as f:
+        while True:
+            left = deadline - time.time()
+            if left <= 0:
+                killed = True
+                break
+            r, _, _ = select.select([f], [], [], min(left, 5))
+            if r:
+                b = f.read1(1 << 20) if hasattr(f, "read1") else f.read()
+                if not b:
+                    break
+                chunks.append(b)
+    if killed:
+        try:
+            os.kill(pid, 9)
+        except ProcessLookupError:
+            pass
+    os.waitpid(pid, 0)
+    if killed:
+        return _finish({"status": "inconclusive", "bucket": "hard_time_limit"}, case)
+    try:
+        return _finish(json.loads(b"".join(chunks).decode()), case)
+    except Exception:
+        return _finish({"status": "harness_error", "bucket": "child_died", "detail": "child process died without a verdict"}, case)
 
 
 # ---------------------------------------------------------------------------------- worker
@@ -127,6 +186,7 @@ def worker_main(argv):
         return False
 
     hseed = mix(seed, pid, shard)
+    t_start = time.time()
 
     @hypothesis.seed(hseed)
     @settings(
@@ -135,6 +195,10 @@ def worker_main(argv):
     )
     @given(prop.strategy(tier))
     def test(case):
+        if time.time() - t_start > bud.get("time_budget", 10**9):
+            # wall-clock budget of this shard used up: remaining cases are skipped (never a verdict)
+            rec["extra"]["skipped_after_time_budget"] = rec["extra"].get("skipped_after_time_budget", 0) + 1
+            return
         if state["failed"]:
             state["shrink_calls"] += 1
             if state["shrink_calls"] > bud.get("shrink_calls", 60):
